@@ -144,3 +144,18 @@ Theorem C01_nonvacuous_split_bell_pair :
     [None; None; None; None; None; None; None; None; Some true; Some true].
 Proof. exact (conj ex_factors (conj ex_joint_ZZ (conj ex_ideal_ZZ (proj1 (proj2 ex_outcomes))))). Qed.
 Print Assumptions C01_nonvacuous_split_bell_pair.
+
+(* non-vacuity with the two client operations on registers (remote_add_register, remote_new_qubit_inreg): a register of capacity 2 is
+   made and filled at node 0 (third creation refused), a Bell pair is built INSIDE it, node 1 keeps an unused (empty) register and
+   pulls the client-made register by a remote merge; the register operations translate to fresh |0> qubits / no-ops, X_0 X_1 is in
+   the joint group and (by the theorem) in the ideal group, and both machines report the same outcomes *)
+Theorem C01_nonvacuous_client_registers :
+  tr_run (init_net capsr) regprog =
+    [INop; ICreate 0; ICreate 1; INop; IGate1 0 GH; IGate2 0 1 GCNOT; INop; INop; ICreate 3; IGate2 3 1 GCNOT;
+     IMeas 1 true true; IMeas 0 false false; IMeas 3 false true] /\
+  joint (run (init_net capsr) regprog10) (P0, g2 0 PX 1 PX) /\
+  ideal (irun iinit (tr_run (init_net capsr) regprog10)) (P0, g2 0 PX 1 PX) /\
+  outs_meas regprog (run_outs (init_net capsr) regprog) =
+    [None; None; None; None; None; None; None; None; None; None; Some true; Some true; Some false].
+Proof. exact (conj ex_reg_translation (conj ex_reg_joint_XX (conj ex_reg_ideal_XX (proj1 (proj2 ex_reg_outcomes))))). Qed.
+Print Assumptions C01_nonvacuous_client_registers.
